@@ -262,6 +262,23 @@ def check_c03(tier, seed):
                     s1, s2 = (3, s1[1]), (3, s2[1])
                 o1, o2 = np.ones(s1, dtype=d1), np.ones(s2, dtype=d2) * 2
                 compare(f"{jn}[mixed dtypes,{empties}]", lambda: jf(mg, (mg.tensor(o1), mg.tensor(o2))), lambda: jf(np, (o1, o2)), dict(fn=jn, dtypes=[np.dtype(d1).name, np.dtype(d2).name], shapes=[list(s1), list(s2)], empties=empties))
+    # tensors in argument positions other than "the" data operand: the condition of where, the end points of linspace & co., the bounds of clip,
+    # the values of full / full_like, the shift of roll
+    cond_ = np.array([True, False, True])
+    argpos = [
+        ("where[tensor condition]", lambda: mg.where(mg.tensor(cond_), mg.tensor([1.0, 2.0, 3.0]), 2.0), lambda: np.where(cond_, np.array([1.0, 2.0, 3.0]), 2.0)),
+        ("where[tensor condition,np]", lambda: np.where(mg.tensor(cond_), mg.tensor([1.0, 2.0, 3.0]), 2.0), lambda: np.where(cond_, np.array([1.0, 2.0, 3.0]), 2.0)),
+        ("linspace[tensor start]", lambda: mg.linspace(mg.tensor(1.0), 2.0, 5), lambda: np.linspace(1.0, 2.0, 5)),
+        ("linspace[tensor stop]", lambda: mg.linspace(1.0, mg.tensor(2.0), 5), lambda: np.linspace(1.0, 2.0, 5)),
+        ("logspace[tensor start]", lambda: mg.logspace(mg.tensor(1.0), 2.0, 5), lambda: np.logspace(1.0, 2.0, 5)),
+        ("geomspace[tensor start]", lambda: mg.geomspace(mg.tensor(1.0), 2.0, 5), lambda: np.geomspace(1.0, 2.0, 5)),
+        ("arange[tensor stop]", lambda: mg.arange(mg.tensor(5)), lambda: np.arange(5)),
+        ("full[tensor value]", lambda: mg.full((2,), mg.tensor(1.5)), lambda: np.full((2,), 1.5)),
+        ("full_like[tensor value]", lambda: mg.full_like(mg.tensor([1.0, 2.0]), mg.tensor(1.5)), lambda: np.full_like(np.array([1.0, 2.0]), 1.5)),
+        ("clip[tensor bounds]", lambda: mg.clip(mg.tensor([0.0, 1.0, 2.0]), mg.tensor(0.5), mg.tensor([1.5, 1.5, 1.5])), lambda: np.clip(np.array([0.0, 1.0, 2.0]), 0.5, np.array([1.5, 1.5, 1.5]))),
+    ]
+    for nm_, fm_, fr_ in argpos:
+        compare(nm_, fm_, fr_, dict(fn=nm_, note="a tensor in an argument position other than the data operand"))
     for nm, f, a in manip:
         compare(nm, lambda: f(mg, mg.tensor(a)), lambda: f(np, a), dict(fn=nm, operands=[describe(a)]))
         compare(nm + "[np-on-tensor]", lambda: f(np, mg.tensor(a)), lambda: f(np, a), dict(fn=nm, spelling="numpy function on tensor"))
@@ -504,6 +521,34 @@ def check_c10(tier, seed):
                         b.fail("C10.bounded.nonconstant_without_grad", d2, "the value written into a non-constant base received no gradient")
                     b.case(d2)
                 b.case(desc)
+    # a NON-constant view taken through a CONSTANT view of a variable: it is a variable of its own (the constant view cuts it off from x), so it
+    # reports the gradient it receives -- and x receives nothing through it
+    vops2 = [("reshape", lambda t, k: mg.reshape(t, (4,), constant=k)), ("getitem", lambda t, k: mg.reshape(t, (2, 2), constant=k)[::-1] if k is None else mg.reshape(t, (2, 2), constant=k)), ("transpose", lambda t, k: mg.transpose(mg.reshape(t, (2, 2)), constant=k))]
+    for v1n, v1f in vops2:
+        for v2n, v2f in vops2:
+            for also_direct in (False, True):
+                xq = mg.tensor([1.0, 2.0, 3.0, 4.0])
+                d6 = dict(family="non-constant view through a constant view", first=v1n + "(constant=True)", second=v2n + "(constant=False)", x_also_reaches_the_loss_directly=also_direct)
+                b.count("non-constant view through a constant view")
+                try:
+                    cq = v1f(xq, True)
+                    vq = v2f(cq, False)
+                    Lq = (vq * 3.0).sum() + ((xq * xq).sum() if also_direct else 0.0)
+                    Lq.backward()
+                except Exception as e:
+                    b.fail("C10.bounded.chain_raises", d6, f"{type(e).__name__}: {e}")
+                    continue
+                if vq.constant is not False or cq.constant is not True:
+                    b.fail("C10.bounded.forced_flag", d6, f"flags: constant view {cq.constant}, non-constant view {vq.constant}")
+                elif vq.grad is None or not np.array_equal(vq.grad, np.full(vq.shape, 3.0)):
+                    b.fail("C10.bounded.nonconstant_without_grad", d6, f"the non-constant view has grad {None if vq.grad is None else vq.grad.tolist()}, expected all 3")
+                elif cq.grad is not None:
+                    b.fail("C10.bounded.nograd", d6, "the constant view acquired a gradient")
+                elif also_direct and not np.array_equal(xq.grad, 2 * xq.data):
+                    b.fail("C10.bounded.nograd", d6, f"x.grad = {xq.grad.tolist()}: gradient leaked through the constant view (expected 2x)")
+                elif not also_direct and xq.grad is not None:
+                    b.fail("C10.bounded.nograd", d6, "x received a gradient through a constant view")
+                b.case(d6)
     # inference with NON-tensor operands: Python / NumPy scalars, lists and arrays are constants -- the result is constant exactly when every
     # TENSOR operand is constant (or the result is integer-valued), whatever the kinds of the operands and of the result; a constant result never
     # acquires a gradient, as an intermediate neither
